@@ -23,7 +23,7 @@ def c19(ctx: Ctx):
         if v.get("kind") == "req":
             write_ndjson(cases, [dict(kind="req", c=v["c"])])
         else:
-            write_ndjson(cases, [dict(s=v["s"], vals=[v["v"]] if "v" in v else [])])
+            write_ndjson(cases, [dict(s=v["s"], vals=[v["v"]] if "v" in v else [], share=bool(v.get("share")))])
         write_ndjson(vals, [])
     else:
         cases, vals = gen(ctx, "Gen_C19_%s.cfg" % ctx.tier, "F generate schemas incl. extended keywords (BFS)")
@@ -39,9 +39,16 @@ def c19(ctx: Ctx):
             f.write(open(req).read())
         log("[gen] + %d request/response cases" % n)
         ctx.exhaustive = True
+    # the configurations part of the quantifier: the option sets every rejected value is validated under (spec/Gen_C19O.tla)
+    ctx.tlc("Gen_C19O", "Gen_C19O.cfg", label="F generate option sets (mode x reading x extra x way of hiding the value)")
+    optsp = os.path.join(ctx.scratch, "opts.ndjson")
+    nopts = ctx.unquote(ctx.spec("opts.ndjson"), optsp)
+    ctx.extra["option_sets"] = nopts
     ctx.build_driver()
     logp = os.path.join(ctx.scratch, "log.ndjson")
-    ctx.drive(cases, logp, env={"VERIF_VALS": vals}, shards=8)
+    ctx.drive(cases, logp, env={"VERIF_VALS": vals, "VERIF_OPTS": optsp,
+                                # the option sets are run on a seeded slice of the (schema, value) pairs (replay: on the one pair)
+                                "VERIF_OPTS_EVERY": "1" if ctx.replay else ("8" if ctx.tier == "quick" else "6")}, shards=8)
     rng = random.Random(ctx.seed)
     fields = {}
     for l in open(logp):
